@@ -13,6 +13,7 @@ import ast
 
 from ..cir import strip, strip_parens, path, callee, text, const_int
 from ..cfg import CFG
+from ..flow import Analysis, sget, sset, sdel
 from ..common import AnalysisError, SRC
 from .. import pyfront
 
@@ -256,61 +257,91 @@ def search_c(tu):
             rule="SEARCH-DEFUSE", function="_bucket_set", file=fn.f, line=fn.l,
             construct="search runs on %s" % sorted(set(path(x.kids[0]) for x in srch)),
             detail="the search must run on the bucket being modified", path=[]))
-    # branch structure: len-- only when found, len++ only when absent
+    # branch structure: len-- only when found, len++ only when absent.  Path rule:
+    # the fact "found" / "absent" is established on the edges of every test of the
+    # search's comparison result against 0 - written out or through a local that
+    # names it (`present = cmp == 0`) - and required at the mutation.
     cfg = CFG(fn)
-    dom = cfg.dominators()
-    found_branch = None
-    for nd in cfg.live_nodes():
-        if nd.kind == "branch" and nd.e is not None:
-            e = strip(nd.e)
-            if e.k == "BinaryOperator" and e.v == "==" and path(e.kids[0]) == "cmp" and \
-                    const_int(e.kids[1]) == 0 and e.mo != "BUCKET_SEARCH":
-                found_branch = nd
-    if found_branch is None:
+    cmpvars = set()
+    for a in fn.walk():
+        if a.k == "BinaryOperator" and a.v == "=" and a.mo == "BUCKET_SEARCH":
+            l = strip(a.kids[0])
+            if l is not None and l.k == "DeclRefExpr" and l.n != "i" and (l.t or "").strip() == "int":
+                cmpvars.add(l.n)
+    cmpvars.add("cmp")
+
+    def cmp_test(e):
+        """'eq' / 'ne' when e is (cmpvar == 0) / (cmpvar != 0), else None"""
+        e = strip(e)
+        if e is not None and e.k == "BinaryOperator" and e.v in ("==", "!=") and const_int(e.kids[1]) == 0 \
+                and path(e.kids[0]) in cmpvars and e.mo != "BUCKET_SEARCH":
+            return "eq" if e.v == "==" else "ne"
+        return None
+
+    class _Found(Analysis):
+        def __init__(self, cfg, tu):
+            Analysis.__init__(self, cfg, tu)
+            self.tests = 0
+            self.checks = []
+
+        def on_node(self, node, st):
+            e = node.e
+            if e is None:
+                return [st]
+            for x in e.walk():
+                lhs = rhs = None
+                if x.k == "BinaryOperator" and x.v == "=":
+                    l = strip(x.kids[0])
+                    if l is not None and l.k == "DeclRefExpr":
+                        lhs, rhs = l.n, x.kids[1]
+                elif x.k == "VarDecl" and x.kids and x.kids[-1].k != "Absent":
+                    lhs, rhs = x.n, x.kids[-1]
+                if lhs is not None and lhs not in cmpvars:
+                    t = cmp_test(rhs)
+                    st = sset(st, "nm:" + lhs, t) if t else sdel(st, "nm:" + lhs)
+            if node.kind != "branch":
+                for x in e.walk():
+                    if x.k == "UnaryOperator" and path(x.kids[0]) == "self->len" and \
+                            x.v in ("post--", "--", "post++", "++"):
+                        self.checks.append((x, "found" if "-" in x.v else "absent", sget(st, "f"), "self->len" + x.v[-2:]))
+                    if x.k == "CallExpr" and callee(x) == ("fn", "PyErr_SetObject") and "PyExc_KeyError" in text(x):
+                        self.checks.append((x, "absent", sget(st, "f"), "KeyError raised"))
+            return [st]
+
+        def on_edge(self, node, label, st):
+            if label not in ("T", "F") or node.e is None:
+                return st
+            want = label == "T"
+            e = strip(node.e)
+            while e is not None and e.k == "UnaryOperator" and e.v == "!":
+                want = not want
+                e = strip(e.kids[0])
+            t = cmp_test(e)
+            if t is None and e is not None and e.k == "DeclRefExpr":
+                t = sget(st, "nm:" + e.n)
+            if t is None:
+                return st
+            self.tests += 1
+            eq = (t == "eq") == want
+            return sset(st, "f", "found" if eq else "absent")
+    an = _Found(cfg, tu)
+    an.solve()
+    if not an.tests:
         raise AnalysisError("anchor vanished: `cmp == 0` test in _bucket_set")
-
-    def side(nd):
-        """'T' / 'F' : on which side of the found test the node lies"""
-        t = [s for l, s in found_branch.succ if l == "T"][0]
-        f = [s for l, s in found_branch.succ if l == "F"][0]
-
-        def reach(start):
-            seen, st = set(), [start]
-            while st:
-                q = st.pop()
-                if q.id in seen:
-                    continue
-                seen.add(q.id)
-                st.extend(s for _, s in q.succ)
-            return seen
-        rt, rf = reach(t), reach(f)
-        if nd.id in rt and nd.id not in rf:
-            return "T"
-        if nd.id in rf and nd.id not in rt:
-            return "F"
-        return "?"
-    for nd in cfg.live_nodes():
-        if nd.e is None:
+    seen_sites = set()
+    for x, want, have, what in an.checks:
+        key = (x.l, what, have)
+        if key in seen_sites:
             continue
-        for x in nd.e.walk():
-            if x.k == "UnaryOperator" and path(x.kids[0]) == "self->len" and x.v in ("post--", "--", "post++", "++"):
-                n += 1
-                want = "T" if "-" in x.v else "F"
-                if side(nd) != want:
-                    findings.append(dict(
-                        rule="SEARCH-BRANCH", function="_bucket_set", file=x.f, line=x.l,
-                        construct="self->len%s on the %s side of `cmp == 0`" % (x.v[-2:], side(nd)),
-                        detail="a key is removed only when the search found "
-                               "it and added only when it is absent (keys "
-                               "stay unique)", path=[]))
-            if x.k == "CallExpr" and callee(x) == ("fn", "PyErr_SetObject") and \
-                    "PyExc_KeyError" in text(x):
-                n += 1
-                if side(nd) != "F":
-                    findings.append(dict(
-                        rule="SEARCH-BRANCH", function="_bucket_set", file=x.f, line=x.l,
-                        construct="KeyError raised on the %s side of `cmp == 0`" % side(nd),
-                        detail="KeyError is for deleting an absent key", path=[]))
+        seen_sites.add(key)
+        n += 1
+        if have != want:
+            findings.append(dict(
+                rule="SEARCH-BRANCH", function="_bucket_set", file=x.f, line=x.l,
+                construct="%s on a path where the key is %s" % (
+                    what, {"found": "found", "absent": "absent", None: "not known to be found or absent"}[have]),
+                detail="a key is removed only when the search found it and added only when it is "
+                       "absent (keys stay unique); KeyError is for deleting an absent key", path=[]))
     return dict(findings=findings, n=n)
 
 
